@@ -540,5 +540,5 @@ def plan(plan, tier, seed):
                      "std Hash impls of the primitive kinds feed the value's bytes (executed under Kani)"]
     plan.assumptions += ["set algebra (union, intersection, difference, symmetric difference, subset relations, membership) is a single call into indexmap in every solve(); hash containers cannot be executed under CBMC (P12), so the algebra is the dependency's assumed contract",
                          "String, tuple, nested-set, rational elements: not covered by the law harnesses yet"]
-    plan.undecided_clauses += ["C14: that indexmap implements the set algebra (assumed), subset/superset/membership relations, insert/remove, set literals and comprehensions, mixed-kind operands"]
+    plan.undecided_clauses += ["C14: that indexmap implements the set algebra (assumed), insert/remove, the evaluation of the element expressions of a set literal / the generators of a comprehension (their results are inputs of the contracts), mixed-kind operands beyond the metadata clause"]
     plan.level = "proof"
